@@ -11,7 +11,7 @@
    committed sequences against the extracted reference executor); the step-by-step refinement
    process_msg -> abstract steps is not mechanised (named as such in the evidence). *)
 From Coq Require Import NArith List.
-From RS Require Import TW.App TW.AppAbs.
+From RS Require Import TW.App TW.Seq TW.AppAbs TW.SeqRefines.
 From RS.Abs Require Import Peel Abs Bridge AbsM AbsM2 BridgeM ReachM.
 
 Theorem C01_below_valid_bound_histories_are_sequential : forall (p : prog), prog_valid p = true ->
@@ -23,6 +23,17 @@ Theorem C01_below_valid_bound_histories_are_sequential : forall (p : prog), prog
                (Bridge.Pg cont (ainit p) below) tr ->
   forall l, (l < nlps p)%nat -> Peel.proj cont l tr = BridgeM.Hg cont below a l.
 Proof. exact app_time_warp_is_sequential. Qed.
+
+(* The loop closed at quiescence: in ANY reachable Time Warp state with nothing pending, in flight, being undone or doomed,
+   every LP's history is exactly the projection on that LP of the dispatch log of the executable reference executor
+   (TW/Seq.v, the object the correspondence runs compare the C runtime with), run to exhaustion. *)
+Theorem C01_quiescent_histories_are_the_reference_log : forall (p : prog), prog_valid p = true ->
+  forall a, ReachM.reach cont cltb tltb lpstate (nlps p) (s0 p) (ahandle p) (ainit p) (length (init_events p (nlps p) 0)) a ->
+  BridgeM.gvt_ok cont (fun _ => true) a ->
+  forall fuel b s', seq_run fuel p None false (seq_init p b) = (s', true) ->
+  forall l, (l < nlps p)%nat ->
+  Peel.proj cont l (map SeqRefines.pay (rev (q_log s'))) = map (Abs.con cont) (AbsM.hist cont a l).
+Proof. exact time_warp_at_quiescence_is_reference_log. Qed.
 
 (* the order used by the abstract theory is the runtime's event order of C16 *)
 Theorem C01_order_is_runtime_order : forall (l1 l2 : N) (a b : cont),
@@ -47,6 +58,7 @@ Proof.
 Qed.
 
 Print Assumptions C01_below_valid_bound_histories_are_sequential.
+Print Assumptions C01_quiescent_histories_are_the_reference_log.
 Print Assumptions C01_order_is_runtime_order.
 Print Assumptions C01_valid_programs_are_strictly_causal.
 Print Assumptions C01_invariants_reachable.
